@@ -8,6 +8,7 @@ import (
 	"strconv"
 	"strings"
 
+	"github.com/skycoin/skycoin/src/cipher"
 	"github.com/skycoin/skycoin/src/coin"
 	"github.com/skycoin/skycoin/src/daemon"
 	"github.com/skycoin/skycoin/src/daemon/gnet"
@@ -148,7 +149,12 @@ func syncGen(r *Rng, tier string, emit func(string)) {
 		// forged / re-signed / mutated blocks
 		for i := 0; i < 1+r.Intn(3); i++ {
 			b := chain[r.Intn(len(chain))]
-			switch r.Intn(4) {
+			switch r.Intn(5) {
+			case 4: // the genuine header and publisher signature over a SUBSTITUTED body: the owner of the first
+				// transaction's inputs re-spends them to someone else (valid against the same unspent set)
+				if nb, ok := substituteBody(b); ok {
+					b = nb
+				}
 			case 0: // forger signs the genuine block
 				b.Sig = mustSign(b, true)
 			case 1: // publisher-signed header with a changed time: not on the publisher's chain, needs the key
@@ -246,6 +252,51 @@ func syncGen(r *Rng, tier string, emit func(string)) {
 		emit("give F -")
 		emit("checkdb F")
 	}
+}
+
+// substituteBody keeps header and signature of a publisher block and replaces its first transaction by another
+// one that spends the same inputs (signed by the same owners) but pays a different address.
+func substituteBody(b coin.SignedBlock) (coin.SignedBlock, bool) {
+	if len(b.Body.Transactions) == 0 {
+		return b, false
+	}
+	txns := make(coin.Transactions, len(b.Body.Transactions))
+	copy(txns, b.Body.Transactions)
+	t := txns[0]
+	t2 := coin.Transaction{Type: t.Type, In: append([]cipher.SHA256{}, t.In...), Out: append([]coin.TransactionOutput{}, t.Out...)}
+	if len(t2.Out) == 0 || len(t.Sigs) != len(t.In) {
+		return b, false
+	}
+	for j := range keys {
+		if keys[j].addr != t2.Out[0].Address && j < 6 {
+			t2.Out[0].Address = keys[j].addr
+			break
+		}
+	}
+	t2.InnerHash = t2.HashInner()
+	t2.Sigs = make([]cipher.Sig, len(t2.In))
+	for i := range t2.In {
+		pk, err := cipher.PubKeyFromSig(t.Sigs[i], cipher.AddSHA256(t.InnerHash, t.In[i]))
+		if err != nil {
+			return b, false
+		}
+		found := false
+		for j := range keys {
+			if keys[j].pub == pk {
+				t2.Sigs[i] = cipher.MustSignHash(cipher.AddSHA256(t2.InnerHash, t2.In[i]), keys[j].sec)
+				found = true
+			}
+		}
+		if !found {
+			return b, false
+		}
+	}
+	if err := t2.UpdateHeader(); err != nil {
+		return b, false
+	}
+	txns[0] = t2
+	b.Body.Transactions = txns
+	return b, true
 }
 
 func mustSign(b coin.SignedBlock, forger bool) (sig [65]byte) {
